@@ -1,4 +1,5 @@
 import Moclo.Proofs.Assembly
+import Moclo.Proofs.CiteRoundTrip
 /-!
 # C17 — validation is total and failures are always reported as MoClo errors
 
@@ -155,6 +156,148 @@ theorem assemble_errors_documented (v : Ent) (mods : List Ent) (pid pname : Nat)
                     · cases h
             · simp only [Except.error.injEq] at h
               exact Or.inr (Or.inr (Or.inr (Or.inr (Or.inr h.symm))))
+
+/-- every module the walk puts into the chain is one of the supplied objects, so its extraction finds it -/
+theorem chain_found {mods dms : List Ent} {gs map chain rest : List (GMod Word)} {err : Option Err}
+    {stall : Option Word} {cur stop : Word}
+    (h3 : evalPrefix mods = (gs, err)) (hb : gBuild gs [] = .ok map)
+    (hw : gWalk stop (map.length + 1) cur map = (chain, rest, stall))
+    (hms : List.Forall₂ DerefOf mods dms) :
+    ∀ g ∈ chain, ∃ d, dms.find? (fun e => e.oid = g.oid) = some d := by
+  obtain ⟨hn, hsub⟩ := gBuild_basic gs [] map (by simp [keys]) hb
+  have hwalk := gWalk_walk stop (map.length + 1) cur map (by omega)
+  rw [hw] at hwalk
+  have hperm := (Walk.spec hwalk hn).1
+  intro g hg
+  have hgm : g ∈ map := hperm.mem_iff.mpr (List.mem_append_left _ hg)
+  have hgs : g ∈ gs := by
+    rcases hsub g hgm with h | h
+    · cases h
+    · exact h
+  obtain ⟨e, he, hoid, _⟩ := evalPrefix_src mods gs err h3 g hgs
+  cases hf : mods.find? (fun e => e.oid = g.oid) with
+  | none =>
+    have := List.find?_eq_none.mp hf e he
+    simp [hoid] at this
+  | some e' =>
+    obtain ⟨d, hd, _⟩ := find_deref' hms g.oid hf
+    exact ⟨d, hd⟩
+
+theorem extractChain_error_found (ents : List Ent) (gs : List (GMod Word)) (acc : Rec) (e : Err)
+    (hfound : ∀ g ∈ gs, ∃ d, ents.find? (fun e => e.oid = g.oid) = some d)
+    (h : extractChain ents gs acc = .error e) :
+    e = .invalid ∨ e = .illegal ∨ e = .injected := by
+  induction gs generalizing acc with
+  | nil => simp [extractChain] at h
+  | cons g gs ih =>
+    obtain ⟨d, hd⟩ := hfound g (List.mem_cons_self ..)
+    simp only [extractChain, hd] at h
+    split at h
+    · simp only [Except.error.injEq] at h; exact Or.inr (Or.inr h.symm)
+    · split at h
+      · rename_i err ht
+        simp only [Except.error.injEq] at h; subst h
+        rcases target_error _ _ _ ht with h' | h'
+        · exact Or.inl h'
+        · exact Or.inr (Or.inl h')
+      · exact ih _ (fun g' hg' => hfound g' (List.mem_cons_of_mem _ hg')) h
+
+/-- **the internal error has exactly one cause**: an assembly ends with `internal` only when a `/citation`
+qualifier of one of the supplied records does not index that record's reference list (the one input defect the
+library does not translate into a MoClo error); with well-formed citations every failure is a documented one -/
+theorem internal_only_for_bad_citations (v : Ent) (mods : List Ent) (pid pname : Nat)
+    (h : (assemble v mods pid pname).1 = .error .internal) :
+    derefRec v.rcd = none ∨ ∃ e ∈ mods, derefRec e.rcd = none := by
+  unfold assemble at h
+  simp only [] at h
+  split at h
+  · rename_i err hv
+    simp only [Except.error.injEq] at h; subst h
+    rcases gmod_error v _ hv with h' | h' <;> cases h'
+  · split at h
+    · simp only [Except.error.injEq] at h; cases h
+    · generalize hep : evalPrefix mods = ep at h
+      obtain ⟨gs, err⟩ := ep
+      simp only [] at h
+      split at h
+      · simp only [Except.error.injEq] at h; cases h
+      · rename_i map hb
+        split at h
+        · rename_i err' herr
+          simp only [Except.error.injEq] at h; subst h
+          have : (evalPrefix mods).2 = some .internal := by rw [hep]
+          rcases evalPrefix_error mods _ this with h' | h' <;> cases h'
+        · split at h
+          · simp only [Except.error.injEq] at h; cases h
+          · split at h
+            · rename_i dms dv hdm _
+              have hms := derefEnts_spec hdm
+              simp only [] at h
+              unfold assembleCore at h
+              simp only [] at h
+              generalize hw : gWalk _ (map.length + 1) _ map = w at h
+              obtain ⟨chain, rest, stall⟩ := w
+              simp only [] at h
+              split at h
+              · rename_i err' hex
+                simp only [Except.error.injEq] at h; subst h
+                rcases extractChain_error_found _ _ _ _ (chain_found hep hb hw hms) hex with h' | h' | h' <;> cases h'
+              · split at h
+                · simp only [Except.error.injEq] at h; cases h
+                · split at h
+                  · simp only [Except.error.injEq] at h; cases h
+                  · split at h
+                    · rename_i err' ht
+                      simp only [Except.error.injEq] at h; subst h
+                      rcases target_error _ _ _ ht with h' | h' <;> cases h'
+                    · cases h
+            · rename_i hnot
+              by_cases hv : derefRec v.rcd = none
+              · exact Or.inl hv
+              · by_cases hm : ∃ e ∈ mods, derefRec e.rcd = none
+                · exact Or.inr hm
+                · exfalso
+                  have hall : ∀ e ∈ mods, (derefRec e.rcd).isSome := by
+                    intro e he
+                    cases hd : derefRec e.rcd with
+                    | none => exact absurd ⟨e, he, hd⟩ hm
+                    | some _ => rfl
+                  obtain ⟨dms, hdms⟩ := derefEnts_some hall
+                  cases hr : derefRec v.rcd with
+                  | none => exact hv hr
+                  | some r => exact hnot dms { v with rcd := r } hdms (by simp [hr])
+
+/-- **multi-level workflows**: the product of a successful assembly, used as a module of a further assembly
+together with any other records whose citations are well formed, never makes that assembly end with the internal
+error — however many papers the product cites -/
+theorem product_as_input_never_internal {v : Ent} {mods : List Ent} {pid pname : Nat} {p : Product}
+    {after : List Rec} (h : assemble v mods pid pname = (.ok p, after))
+    (v2 : Ent) (mods2 : List Ent) (pid2 pname2 : Nat) (hv2 : (derefRec v2.rcd).isSome)
+    (hm2 : ∀ e ∈ mods2, e.rcd = p.rcd ∨ (derefRec e.rcd).isSome) :
+    (assemble v2 mods2 pid2 pname2).1 ≠ .error .internal := by
+  intro hint
+  rcases internal_only_for_bad_citations v2 mods2 pid2 pname2 hint with hn | ⟨e, he, hn⟩
+  · rw [hn] at hv2; cases hv2
+  · rcases hm2 e he with hp | hs
+    · obtain ⟨pre, _, _, hd⟩ := product_derefs h
+      rw [hp, hd] at hn; cases hn
+    · rw [hn] at hs; cases hs
+
+/-! non-vacuity: the toy assembly of `C01` succeeds; with a citation `[5]` on a module that lists no reference it
+ends with the internal error, and the hypothesis of `internal_only_for_bad_citations` is met by that module -/
+section example_
+def g : Geom := { site := [.G, .A], off := 1, k := 2 }
+def wordOf (s : List Nt) : Word := s.map (fun n => ⟨n, false⟩)
+def mrec (cs : List Cite) : Rec :=
+  { rid := 1, seq := wordOf [.G,.A,.C,.A,.C,.A,.A,.A,.C,.A,.C,.T,.C,.G,.G],
+    feats := [⟨1, .user 0, [⟨3, 4, 1⟩], cs⟩], refs := [] }
+def vrec : Rec := { rid := 0, seq := wordOf [.C,.A,.C,.C,.C,.C,.A,.C,.C,.T,.C,.T,.G,.A,.C], feats := [], refs := [] }
+def ment (cs : List Cite) : Ent :=
+  { oid := 1, spec := { kind := .module, pat := moduleStructure g, geom := g }, rcd := mrec cs }
+def vent : Ent := { oid := 0, spec := { kind := .vector, pat := vectorStructure g, geom := g }, rcd := vrec }
+example : (assemble vent [ment []] 7 7).1.toOption.isSome = true := by decide
+example : (assemble vent [ment [.idx 5]] 7 7).1 = .error .internal := by decide
+end example_
 
 /-! non-vacuity: a record shorter than the structure is rejected with `invalid`; one with a third cut with
 `illegal` -/
